@@ -15,6 +15,8 @@ pub fn size_for(seed: u64, tag: &str, doc: &str, vi: u64, tier: Tier) -> usize {
         2 => 2 + r.below(6) as usize,
         // one payload above 8 KiB per document in every tier (exceeds BufWriter / BufReader defaults)
         5 => 1100,
+        // values whose stream length is fitted to a boundary (only `Padded<..>` documents can be fitted)
+        6..=17 => 1 + r.below(4) as usize,
         _ => {
             let big = match tier {
                 Tier::Quick => false,
@@ -28,6 +30,18 @@ pub fn size_for(seed: u64, tag: &str, doc: &str, vi: u64, tier: Tier) -> usize {
             }
         }
     }
+}
+
+/// Value indices 6..=17: stream length ≡ -1, 0, +1 modulo 8192 (buffered writer / reader capacity),
+/// 4096 (page), 64 and 16 (the loaders' rounding units).
+pub fn fit_for(vi: u64) -> Option<(usize, isize)> {
+    if !(6..=17).contains(&vi) {
+        return None;
+    }
+    let k = (vi - 6) as usize;
+    let modulus = [8192usize, 4096, 64, 16][k / 3];
+    let delta = [-1isize, 0, 1][k % 3];
+    Some((modulus, delta))
 }
 
 pub fn fx(s: &str) -> u64 {
@@ -59,7 +73,11 @@ pub fn unit_doc(unit: u64) -> (&'static str, u64) {
 pub fn gen_value<D: Doc>(seed: u64, tag: &str, vi: u64, tier: Tier) -> (D, usize) {
     let size = size_for(seed, tag, D::NAME, vi, tier);
     let mut r = Rng::new(mix(seed, "value", fx(D::NAME), vi.wrapping_mul(31).wrapping_add(size as u64)));
-    (D::gen(&mut r, size), size)
+    let mut v = D::gen(&mut r, size);
+    if let Some((modulus, delta)) = fit_for(vi) {
+        v.fit_len(modulus, delta);
+    }
+    (v, size)
 }
 
 /// Fault-free serialization through a `SimWriter` with an empty script: returns the stream and the
